@@ -556,4 +556,29 @@ Section Codec.
     | OResolve eid h idx ro :: r => resolve_in cur ro (create_artifact eid h idx) :: run_fed cur r
     end.
 
+  (* ---- where the documents come from (strengthening round 6).  MetadataStore.metadata is a dict
+     source name -> loaded source: load() / imp() do self.metadata[key] = _md, where key is the file name, the URL,
+     the loader, a counter (old-style "inline") or the text of the document (InMemoryMetaData in a "class" list);
+     reload() starts again from {}.  A metadata configuration = the named sources in configuration order. *)
+  Definition mdconfig := list (string * source).
+  Definition store_load (cfg : mdconfig) : federation :=
+    map snd (fold_left (fun d kv => upd (fst kv) (snd kv) d) cfg []).
+
+  (* several long-lived resolvers in one process; every operation names its resolver.  MLoad = a new Entity on a
+     configuration with these sources (first load of a resolver, or a new object that takes the resolver's place),
+     Entity.reload_metadata, or MetadataStore.reload followed by a new Entity on the same Config object *)
+  Inductive mop :=
+  | MLoad (rcv : nat) (cfg : mdconfig)
+  | MResolve (rcv : nat) (eid handle : string) (idx : nat) (r : role).
+
+  Definition fed_of {A} (st : list (nat * list A)) (rcv : nat) : list A :=
+    match List.find (fun p => Nat.eqb (fst p) rcv) st with Some p => snd p | None => [] end.
+
+  Fixpoint run_multi (st : list (nat * federation)) (ops : list mop) : list ares :=
+    match ops with
+    | [] => []
+    | MLoad rcv cfg :: r => run_multi ((rcv, store_load cfg) :: st) r
+    | MResolve rcv eid h idx ro :: r => resolve_in (fed_of st rcv) ro (create_artifact eid h idx) :: run_multi st r
+    end.
+
 End Codec.
